@@ -86,6 +86,9 @@ class Ev:
         """set of def sites of `local` reaching program point `at` = (block, stmt index);
         the point is *before* the statement with that index (terminator = len(stmts))."""
         sites = self.def_sites().get(local, [])
+        dead = getattr(self, "dead_blocks", None)
+        if dead:
+            sites = [x for x in sites if x[1] not in dead]
         if not sites:
             return []
         if len(sites) == 1:
